@@ -279,6 +279,7 @@ type Inst struct {
 	mu      sync.Mutex
 	cond    *sync.Cond
 	defs    *schema.Definitions
+	gram    *traceGrammar
 	watched bool
 	foreign bool
 	log     []Ev
@@ -317,7 +318,7 @@ type InstOpt struct {
 // attached BEFORE start, and starts all start events.
 func StartInst(defs *schema.Definitions, o InstOpt) (*Inst, error) {
 	ctx, cancel := context.WithCancel(context.Background())
-	in := &Inst{Ctx: ctx, Cancel: cancel, pending: map[string][]bpmn.TaskTrace{}, ntask: map[string]int{}, raw: o.Raw, defs: defs, foreign: o.ForeignTracer}
+	in := &Inst{Ctx: ctx, Cancel: cancel, pending: map[string][]bpmn.TaskTrace{}, ntask: map[string]int{}, raw: o.Raw, defs: defs, foreign: o.ForeignTracer, gram: newTraceGrammar()}
 	in.cond = sync.NewCond(&in.mu)
 	opts := []bpmn.Option{bpmn.WithContext(ctx), bpmn.WithIdGenerator(sharedGen)}
 	if o.Vars != nil {
@@ -362,6 +363,9 @@ func (in *Inst) pump(ch chan tracing.ITrace) {
 		tr = tracing.Unwrap(tr)
 		if in.raw != nil {
 			in.raw(tr)
+		}
+		if in.gram != nil && !in.foreign {
+			in.gram.step(tr)
 		}
 		var ev Ev
 		switch t := tr.(type) {
@@ -529,6 +533,9 @@ func (in *Inst) Close() {
 	if in.defs != nil {
 		checkDefsUntouched(in.defs)
 	}
+	if in.gram != nil && in.gram.bad != "" {
+		sharedFinding("trace-grammar", in.describe(), "the instance's trace stream breaks the causality grammar: "+in.gram.bad)
+	}
 	// after the cancellation the instance's tracer must come to its end (every sender released, every node gone)
 	if in.P != nil && !in.watched && !in.foreign {
 		in.watched = true
@@ -568,6 +575,70 @@ func logString(l []Ev) string {
 }
 
 const (
-	tmoStep = 5 * time.Second        // generous bound for "must appear"
+	tmoStep = 12 * time.Second       // generous bound for "must appear" (a loaded machine stalled a run for more than 5 s once)
 	settle  = 30 * time.Millisecond // settle delay where absence is asserted
 )
+
+// traceGrammar: the causality grammar of Model/TraceGrammar.v (C09), applied to the stream of every instance of every
+// scenario as it is received: no new flow with the id of a terminated one; a node is left at most as often as it was
+// visited; no flow trace of a terminated flow; an announced flow has not started before its announcement; a flow
+// terminates once. The first violation of an instance is reported (finding key <property>-trace-grammar).
+type traceGrammar struct {
+	started, dead map[string]bool
+	visits, leave map[string]int
+	n             int
+	bad           string
+}
+
+func newTraceGrammar() *traceGrammar {
+	return &traceGrammar{started: map[string]bool{}, dead: map[string]bool{}, visits: map[string]int{}, leave: map[string]int{}}
+}
+
+func (g *traceGrammar) step(tr tracing.ITrace) {
+	g.n++
+	if g.bad != "" {
+		return
+	}
+	fail := func(msg string) { g.bad = fmt.Sprintf("trace %d: %s", g.n, msg) }
+	switch t := tr.(type) {
+	case bpmn.NewFlowTrace:
+		f := t.FlowId.String()
+		if g.dead[f] {
+			fail("a new flow carries the id of a terminated one (" + f + ")")
+		}
+		g.started[f] = true
+	case bpmn.VisitTrace:
+		g.visits[nodeId(t.Node)]++
+	case bpmn.LeaveTrace:
+		n := nodeId(t.Node)
+		if g.leave[n] >= g.visits[n] {
+			fail("node " + n + " is left more often than it was visited")
+		}
+		g.leave[n]++
+	case bpmn.FlowTrace:
+		cont := false
+		for _, s := range t.Flows {
+			f := s.Id().String()
+			if g.started[f] && !cont {
+				cont = true // the continuing token
+				if g.dead[f] {
+					fail("flow trace of the terminated flow " + f)
+				}
+			} else if g.started[f] {
+				fail("the flow trace at " + nodeId(t.Source) + " announces flow " + f + ", which has already started")
+			}
+		}
+	case bpmn.TerminationTrace:
+		f := t.FlowId.String()
+		if g.dead[f] {
+			fail("flow " + f + " terminated twice")
+		}
+		g.dead[f] = true
+	case bpmn.CancellationFlowTrace:
+		f := t.FlowId.String()
+		if g.dead[f] {
+			fail("flow " + f + " terminated twice")
+		}
+		g.dead[f] = true
+	}
+}
